@@ -5,7 +5,7 @@
    route.py, dispatchlab correspondence. *)
 From Coq Require Import List String Bool ZArith.
 Import ListNotations.
-From ClasticV Require Import Base.Py Base.Strs Gen.Tables Gen.NormPathGen Model.Pattern Model.Match Model.Dispatch
+From ClasticV Require Import Gen.DispatchShape Base.Py Base.Strs Gen.Tables Gen.NormPathGen Model.Pattern Model.Match Model.Dispatch
      Proofs.DispatchProofs Proofs.MatchProofs Proofs.RoutingProofs.
 Local Open Scope string_scope.
 Local Open Scope list_scope.
@@ -126,3 +126,74 @@ Example C06_example :
   serve HDefault RAdapt ex_rs "PUT" "/x" = FErr 4 405 ["GET"; "HEAD"; "POST"; "GET"; "HEAD"] false /\
   serve HDefault RAdapt (firstn 2 ex_rs) "HEAD" "/x" = FErr 0 404 [] false.
 Proof. vm_compute. repeat split; reflexivity. Qed.
+
+(* obligation on the source: the control-flow skeletons of the dispatch loop, DispatchState and match_method, regenerated from application.py / route.py on every run.
+   Model/Dispatch.v is a hand transcription of exactly these statements: any edit re-opens the correspondence question
+   (the check then searches for a failing request and reports what it finds) *)
+Theorem C06_request_path_shape :
+  SK_APPLICATION_DISPATCH =
+  ["ret = None";
+   "url_path, method = (request.path, request.method)";
+   "dispatch_state = DispatchState()";
+   "err_handler = self.error_handler";
+   "base_params = dict(self.resources, request=request, _application=self, _dispatch_state=dispatch_state)";
+   "for route in self.routes + [self._null_route]";
+   "  path_params = route.match_path(url_path)";
+   "  if path_params is None";
+   "    continue";
+   "  request.path_params = path_params";
+   "  params = dict(base_params, **path_params)";
+   "  method_allowed = route.match_method(method)";
+   "  if not method_allowed";
+   "    dispatch_state.update_methods(route.methods)";
+   "    continue";
+   "  if route.is_branch";
+   "    norm_path = normalize_path(url_path, route.is_branch)";
+   "    if norm_path != url_path";
+   "      if route.slash_mode == S_REDIRECT";
+   "        parts = [request.url_root.rstrip('/'), url_quote(norm_path, safe='/'), '?', url_quote(request.query_string, safe="":/?#[]@!$&'()*+,;=%"")]";
+   "        return redirect(''.join(parts))";
+   "      else";
+   "        if route.slash_mode == S_STRICT";
+   "          nf_exc = err_handler.not_found_type(request=request, application=self, source_route=route)";
+   "          dispatch_state.add_exception(nf_exc)";
+   "          continue";
+   "  try";
+   "    ret = route.execute(**params)";
+   "    if not isinstance(ret, BaseResponse)";
+   "      msg = 'expected Response, received %r' % type(ret)";
+   "      raise TypeError(msg)";
+   "  except RerouteWSGI";
+   "    raise";
+   "  except Exception as exc";
+   "    ret = exc";
+   "    if not isinstance(ret, HTTPException)";
+   "      uncaught_params = dict(params, _route=route, _error=ret)";
+   "      ret = err_handler.uncaught_to_response(**uncaught_params)";
+   "  if not isinstance(ret, HTTPException)";
+   "    break";
+   "  if not getattr(ret, 'source_route', None)";
+   "    ret.source_route = route";
+   "  if getattr(ret, 'is_breaking', True)";
+   "    break";
+   "  else";
+   "    dispatch_state.add_exception(ret)";
+   "if isinstance(ret, HTTPException)";
+   "  error_params = dict(params, _error=ret)";
+   "  try";
+   "    ret = ret.source_route.execute_error(**error_params)";
+   "  except Exception";
+   "    ret = default_render_error(**error_params)";
+   "return ret"] /\
+  SK_DISPATCHSTATE_ADD_EXCEPTION =
+  ["self.exceptions.append(exception)"] /\
+  SK_DISPATCHSTATE_UPDATE_METHODS =
+  ["if methods";
+   "  self.allowed_methods.update(methods)"] /\
+  SK_BOUNDROUTE_MATCH_METHOD =
+  ["if method and self.methods";
+   "  if method.upper() not in self.methods";
+   "    return False";
+   "return True"].
+Proof. repeat split; reflexivity. Qed.
+Print Assumptions C06_request_path_shape.
